@@ -17,6 +17,16 @@ META = {
     "level_text": "proof by enumeration of premises of an ownership/inductive argument (every premise a decided local fact over all paths), modulo hyper's documented sender semantics",
 }
 
+import witness
+
+
+def W(ctx):
+    witness.run(ctx, {"W1": "HttpConnection<Body>: Clone does not hold", "W2": "Pooled.connection is not accessible outside the pool module",
+                      "W3": "Pooled<HttpConnection<Body>, Body>: Clone does not hold"})
+
+
+THOROUGH_RULES = [("W", W)]
+
 RULES = [
     ("P1", pool.P1, ["default"]),
     ("P2", pool.P2_aspects("callers", "open-guard", "conn"), ["default"]),
